@@ -5,7 +5,7 @@ import ast
 
 from ..core import (AnalysisError, alpha, call_name, dotted, is_const, kwarg, local_defs, norm, origin, parent_map,
                     walk_local)
-from ..facts import guards_of, returns_of, enclosing_loops
+from ..facts import guards_of, returns_of, enclosing_loops, if_leaves
 from ..rules import matcher as M
 from ..rules.label import analyse as label_analyse
 from ..rules.select import selections
@@ -122,7 +122,7 @@ def exact(rep):
     for r in rets:
         m = pmatch("[frozenset($c) for $c in $comps]", r.value)
         if m:
-            srcs = [norm(d_.value) for d_ in local_defs(cc.node).get(m["comps"], []) if d_.kind == "assign"]
+            srcs = [norm(leaf) for d_ in local_defs(cc.node).get(m["comps"], []) if d_.kind == "assign" for leaf in if_leaves(d_.value)]
             ok = sorted(srcs) == ["nx.connected_components(self._graph)", "nx.weakly_connected_components(self._graph)"]
     rep.ob("O11.1", "SHAPE", cc, ok, rets[-1] if rets else "return", "components are the connected components of the analysed graph")
 
@@ -413,8 +413,18 @@ def dedup_key(rep):
     loops = [l for l in walk_local(fi.node) if isinstance(l, ast.For) and norm(l.iter) == fi.params[0]]
     if loops:
         mv = norm(loops[0].target)
-        b = pall([f"$free = _free_sig_from_pattern_orbits({mv}, $fo, $hr)", f"$anc = _anchor_sig({mv}, $an)", "$sig = ($free, $anc)", "$seen.add($sig)"], loops[0])
-        okk = b is not None
+        b = pall([f"$anc = _anchor_sig({mv}, $an)", "$sig = ($free, $anc)", "$seen.add($sig)"], loops[0])
+        okk = False
+        if b is not None:
+            # the free part: _free_sig_from_pattern_orbits(m, free orbits, host repr), possibly as one alternative of a conditional (host-only fallback)
+            for d_ in local_defs(loops[0]).get(b["free"], []):
+                if d_.value is None:
+                    continue
+                for leaf in if_leaves(d_.value):
+                    mm = pmatch(f"_free_sig_from_pattern_orbits({mv}, $fo, $hr)", leaf)
+                    if mm:
+                        b.update(mm)
+                        okk = True
         if okk:
             d2 = local_defs(fi.node)
             up = {x.index: nm for nm, xs in d2.items() for x in xs if x.index is not None and isinstance(x.value, ast.Call) and call_name(x.value) == "_prepare_pattern_orbits"}
